@@ -30,6 +30,9 @@ func genConc(r *rand.Rand, tier string) input {
 		Pool:      vh.Pick(r, 0, 1, 4),
 		Coalesce:  r.IntN(3) != 0,
 	}
+	if r.IntN(3) == 0 {
+		in.RetentionMS, in.Shards = 1, 1
+	}
 	n := 8 + r.IntN(25)
 	if tier == "thorough" {
 		n = 8 + r.IntN(50)
@@ -120,6 +123,10 @@ func runConc(in input) vh.Result {
 		AuthorityShardCount: in.Shards, AdvancePoolSize: in.Pool, EffectPoolSize: in.Pool,
 		AppendInflightBatchesPerChannel: in.Limit, ChannelBacklogHighWatermark: in.HW,
 		AdmissionCapacityPerShard: in.Admission,
+	}
+	if in.RetentionMS > 0 {
+		// idle writers are reclaimed almost at once: the sweep in shard.getOrCreate runs all the time
+		opts.WriterIdleRetention = time.Duration(in.RetentionMS) * time.Millisecond
 	}
 	if !in.Coalesce {
 		opts.InboxCoalesceWindow, opts.InboxCoalesceMaxItems = -1, -1
@@ -264,10 +271,27 @@ func runConc(in input) vh.Result {
 		panic("group.Stop did not drain: " + err.Error())
 	}
 	cancel()
-	sort.Slice(calls, func(a, b int) bool { return calls[a].id < calls[b].id })
+	limit := in.Limit
+	if limit <= 0 {
+		limit = 1
+	}
+	st := histResult(calls, node, chName, in.Channels, limit <= 1)
+	st.res.Class = fmt.Sprintf("conc,limit=%d,succ=%v,dup=%v,err=%v,busy=%v,stop=%v,postcommit=%v,pipe=%v,ret=%v", limit, st.nSucc > 0, st.nDup > 0, st.nErr > 0, st.nBusy > 0, stopped, postCommit, piped, in.RetentionMS > 0)
+	return st.res
+}
 
+type histStats struct {
+	res                        vh.Result
+	nSucc, nErr, nBusy, nDup   int
+}
+
+// histResult prints a complete history (calls, one entry per item and result, the
+// records each channel's port committed) as a C29Hist case.
+func histResult(calls []callRec, node *fakeNode, chName func(int) string, channels int, ordered bool) histStats {
+	sort.Slice(calls, func(a, b int) bool { return calls[a].id < calls[b].id })
+	var st histStats
 	var coqCalls, coqSends []string
-	nSucc, nErr, nBusy, nDup, nSends := 0, 0, 0, 0, 0
+	nSends := 0
 	seenSeq := map[string]bool{}
 	for _, c := range calls {
 		coqCalls = append(coqCalls, vh.App("HCall", vh.N(uint64(c.id)), vh.N(uint64(len(c.items))), vh.N(uint64(len(c.results)))))
@@ -278,27 +302,27 @@ func runConc(in input) vh.Result {
 			it := c.items[k]
 			cls := classOf(res.Err)
 			if cls == 0 && res.Result.Reason == channelappend.ReasonSuccess {
-				nSucc++
-				key := fmt.Sprintf("%d/%d", it.Ch%in.Channels, res.Result.MessageSeq)
+				st.nSucc++
+				key := fmt.Sprintf("%d/%d", it.Ch%channels, res.Result.MessageSeq)
 				if seenSeq[key] {
-					nDup++
+					st.nDup++
 				}
 				seenSeq[key] = true
 			} else {
-				nErr++
+				st.nErr++
 				if cls == eChannelBusy || cls == eBackpressured {
-					nBusy++
+					st.nBusy++
 				}
 			}
 			nSends++
 			coqSends = append(coqSends, vh.App("HSend", vh.N(uint64(c.id)), vh.N(uint64(k)), vh.N(c.start), vh.N(c.end),
-				vh.N(uint64(it.Ch%in.Channels)), vh.N(c.tags[k]), coqCmd(it.UID, it.CNo, it.Pay),
+				vh.N(uint64(it.Ch%channels)), vh.N(c.tags[k]), coqCmd(it.UID, it.CNo, it.Pay),
 				vh.App("SRes", vh.N(res.Result.MessageID), vh.N(res.Result.MessageSeq), vh.N(uint64(res.Result.Reason)), vh.N(uint64(cls)))))
 		}
 	}
 	var coqLogs []string
 	commits := 0
-	for c := 0; c < in.Channels; c++ {
+	for c := 0; c < channels; c++ {
 		key := fmt.Sprintf("2:%s", chName(c))
 		node.mu.Lock()
 		p := node.chans[key]
@@ -310,15 +334,10 @@ func runConc(in input) vh.Result {
 		commits += len(recs)
 		coqLogs = append(coqLogs, vh.Pair(vh.N(uint64(c)), vh.ListOf(recs, func(r commitRec) string { return coqPRec(r, tagNum(r.Tag)) })))
 	}
-	limit := in.Limit
-	if limit <= 0 {
-		limit = 1
-	}
-	ordered := limit <= 1
-	return vh.Result{
-		Coq:   vh.App("C29Hist", vh.B(ordered), vh.List(coqCalls), vh.List(coqSends), vh.List(coqLogs)),
-		Obs:   map[string]any{"sends": nSends, "success": nSucc, "errors": nErr, "commits": commits},
-		Class: fmt.Sprintf("conc,limit=%d,succ=%v,dup=%v,err=%v,busy=%v,stop=%v,postcommit=%v,pipe=%v", limit, nSucc > 0, nDup > 0, nErr > 0, nBusy > 0, stopped, postCommit, piped),
+	st.res = vh.Result{
+		Coq:     vh.App("C29Hist", vh.B(ordered), vh.List(coqCalls), vh.List(coqSends), vh.List(coqLogs)),
+		Obs:     map[string]any{"sends": nSends, "success": st.nSucc, "errors": st.nErr, "commits": commits},
 		Trivial: nSends < 2,
 	}
+	return st
 }
